@@ -127,6 +127,10 @@ pub fn case(ctx: &mut Ctx, idx: u64) {
         let text = crate::osu::long_file_n(&mut rng, file_mode, n).render();
         ctx.count("class:long-dense-map");
         maps::decode(&text).map(|m| (gen::MapCase { text, tag: "long".into() }, m))
+    } else if rng.below(5) == 0 {
+        // mid-size maps made of phases: the look-back windows of the skills end in a different phase
+        ctx.count("class:phased-map");
+        gen::gen_phased(&mut rng, None)
     } else {
         gen::gen_domain_map(&mut rng, &mx, Domain::Adversarial)
     };
